@@ -66,12 +66,20 @@ def Atom.key : Atom → AKey
   | .half n => .num n
   | .str s => .str s
 
+/-- what Python's `==` looks at in a value -/
+inductive VKey where
+  | atom (k : AKey)
+  | tuple (l : List AKey)
+  | list (l : List AKey)
+  deriving DecidableEq, Repr
+
+def PyVal.key : PyVal → VKey
+  | .atom a => .atom a.key
+  | .tuple l => .tuple (l.map Atom.key)
+  | .list l => .list (l.map Atom.key)
+
 /-- Python `v == w` on the value domain (no NaN: half-integers only) -/
-def valEq : PyVal → PyVal → Bool
-  | .atom a, .atom b => a.key == b.key
-  | .tuple l, .tuple m => l.map Atom.key == m.map Atom.key
-  | .list l, .list m => l.map Atom.key == m.map Atom.key
-  | _, _ => false
+def valEq (v w : PyVal) : Bool := v.key == w.key
 
 def PyVal.isNone : PyVal → Bool
   | .atom .none => true
@@ -114,6 +122,52 @@ def Lab.properSub (b a : Lab) : Bool :=
   | .tfpoly _, .tpoly _ => true
   | _, _ => false
 
+/-- the fields of a node that identify it (what `__eq__` and the hash look at):
+    a generic's `infix` flag is dropped, a constant's value is replaced by its `==`-key -/
+inductive LKey where
+  | tprim (name : String)
+  | tpoly (name : String)
+  | tfpoly (name : String)
+  | tsum
+  | tarrow
+  | tgeneric (name : String)
+  | unknown
+  | pprim (name : String)
+  | pvar (i : Int)
+  | pconst (hasValue : Bool) (val : VKey) (repr : String)
+  | pfun (argsTuple : Bool)
+  | plam
+  deriving DecidableEq, Repr
+
+def Lab.key : Lab → LKey
+  | .tprim n => .tprim n
+  | .tpoly n => .tpoly n
+  | .tfpoly n => .tfpoly n
+  | .tsum => .tsum
+  | .tarrow => .tarrow
+  | .tgeneric n _ => .tgeneric n
+  | .unknown => .unknown
+  | .pprim n => .pprim n
+  | .pvar i => .pvar i
+  | .pconst hv v r => .pconst hv v.key r
+  | .pfun t => .pfun t
+  | .plam => .plam
+
+/-- how the children take part in equality: not at all, pointwise, as a set, first child only -/
+inductive Mode where
+  | leaf | zip | set | head
+  deriving DecidableEq, Repr
+
+def LKey.mode : LKey → Mode
+  | .tprim _ => .leaf
+  | .tpoly _ => .leaf
+  | .unknown => .leaf
+  | .pvar _ => .leaf
+  | .tfpoly _ => .set
+  | .tsum => .set
+  | .plam => .head
+  | _ => .zip
+
 /-! ## abstract hash functions -/
 
 structure HashFns where
@@ -130,31 +184,35 @@ def HashFns.Lawful (h : HashFns) : Prop :=
   ∀ l1 l2 : List Int, l1.Perm l2 → h.fset l1 = h.fset l2
 
 /-! ## CPython sets (insertion-ordered lists of distinct entries) -/
-section sets
-variable {α : Type} (eq : α → α → Bool) (hs : α → Int)
 
-/-- `key in s` for a set: some entry has the same hash and `entry == key` -/
-def setMem (s : List α) (t : α) : Bool := s.any (fun e => hs e == hs t && eq e t)
+/-- how a set/dict compares a stored entry `e` with a probe `t`: hashes first, then `e == t` -/
+def keyEq {α : Type} (eq : α → α → Bool) (hs : α → Int) (e t : α) : Bool := hs e == hs t && eq e t
+
+section sets
+variable {α : Type} (R : α → α → Bool)
+
+/-- `key in s` for a set: some entry matches -/
+def setMem (s : List α) (t : α) : Bool := s.any (fun e => R e t)
 
 /-- `s.add(t)` -/
-def setAdd (s : List α) (t : α) : List α := if setMem eq hs s t then s else s ++ [t]
+def setAdd (s : List α) (t : α) : List α := if setMem R s t then s else s ++ [t]
 
 /-- `set(iterable)` / `frozenset(iterable)` -/
-def mkSet (l : List α) : List α := l.foldl (setAdd eq hs) []
+def mkSet (l : List α) : List α := l.foldl (setAdd R) []
 
 /-- remove the first entry matching `t` -/
 def setDiscard : List α → α → List α
   | [], _ => []
-  | e :: s, t => if hs e == hs t && eq e t then s else e :: setDiscard s t
+  | e :: s, t => if R e t then s else e :: setDiscard s t
 
 /-- one step of `set_symmetric_difference_update`: discard the key if present, else add it -/
 def symStep (s : List α) (t : α) : List α :=
-  if setMem eq hs s t then setDiscard eq hs s t else s ++ [t]
+  if setMem R s t then setDiscard R s t else s ++ [t]
 
 /-- `len(set(o).symmetric_difference(self)) == 0` : CPython builds `set(self)`, then for every
     entry of `set(o)` discards it from / adds it to that set -/
 def symDiffEmpty (o self : List α) : Bool :=
-  ((mkSet eq hs o).foldl (symStep eq hs) (mkSet eq hs self)).isEmpty
+  ((mkSet R o).foldl (symStep R) (mkSet R self)).isEmpty
 
 end sets
 
@@ -173,8 +231,8 @@ def classEq (eq : T → T → Bool) (hs : T → Int) (self o : T) : Bool :=
     match ls with
     | .tprim n => (match lo with | .tprim m => m == n | _ => false)
     | .tpoly n => lo.isPoly && (match lo with | .tpoly m => m == n | .tfpoly m => m == n | _ => false)
-    | .tfpoly n => (match lo with | .tfpoly m => m == n && symDiffEmpty eq hs ko ks | _ => false)
-    | .tsum => (match lo with | .tsum => symDiffEmpty eq hs ko ks | _ => false)
+    | .tfpoly n => (match lo with | .tfpoly m => m == n && symDiffEmpty (keyEq eq hs) ko ks | _ => false)
+    | .tsum => (match lo with | .tsum => symDiffEmpty (keyEq eq hs) ko ks | _ => false)
     | .tarrow => (match lo with | .tarrow => listEq eq ko ks | _ => false)
     | .tgeneric n _ => (match lo with
         | .tgeneric m _ => m == n && ks.length == ko.length && listEq eq ks ko
@@ -205,26 +263,31 @@ def classEq (eq : T → T → Bool) (hs : T → Int) (self o : T) : Bool :=
 def richEq (eq : T → T → Bool) (hs : T → Int) (a b : T) : Bool :=
   if b.label.properSub a.label then classEq eq hs b a else classEq eq hs a b
 
+/-- the expression each constructor stores in `self.hash`, given the hashes `khs` of the children
+    and the hash `fs` of `frozenset(children)` (only `Sum` uses it) -/
+def nodeHash (h : HashFns) (k : LKey) (khs : List Int) (fs : Int) : Int :=
+  match k with
+  | .tprim n => h.str n
+  | .tpoly n => h.str n
+  | .tfpoly n => h.str n
+  | .tsum => fs
+  | .tarrow => h.tuple khs
+  | .tgeneric n => h.tuple [h.str n, h.tuple khs]
+  | .unknown => h.int 1984
+  | .pprim n => h.tuple (h.str n :: khs)
+  | .pvar i => h.tuple [h.str "var", h.int i]
+  | .pconst hv _ r => h.tuple (h.str r :: h.bool hv :: khs)
+  | .pfun _ => (match khs with
+      | f :: as => h.tuple (as ++ [f])
+      | [] => h.tuple [])
+  | .plam => (match khs with
+      | b :: _ => h.int (94135 + b)
+      | [] => h.int 94135)
+
 /-- the value the constructor stores in `self.hash`, given `==` and `hash` of the children -/
 def ctorHash (h : HashFns) (eq : T → T → Bool) (hs : T → Int) : T → Int
-  | .node l ks =>
-    match l with
-    | .tprim n => h.str n
-    | .tpoly n => h.str n
-    | .tfpoly n => h.str n
-    | .tsum => h.fset ((mkSet eq hs ks).map hs)
-    | .tarrow => h.tuple (ks.map hs)
-    | .tgeneric n _ => h.tuple [h.str n, h.tuple (ks.map hs)]
-    | .unknown => h.int 1984
-    | .pprim n => h.tuple (h.str n :: ks.map hs)
-    | .pvar i => h.tuple [h.str "var", h.int i]
-    | .pconst hv _ r => h.tuple (h.str r :: h.bool hv :: ks.map hs)
-    | .pfun _ => (match ks with
-        | f :: as => h.tuple (as.map hs ++ [hs f])
-        | [] => h.tuple [])
-    | .plam => (match ks with
-        | b :: _ => h.int (94135 + hs b)
-        | [] => h.int 94135)
+  | .node l ks => nodeHash h l.key (ks.map hs)
+      (if l.key = .tsum then h.fset ((mkSet (keyEq eq hs) ks).map hs) else 0)
 
 /-- `n` unfoldings of `==` and of `hash` -/
 def sem (h : HashFns) : Nat → (T → T → Bool) × (T → Int)
@@ -245,25 +308,19 @@ def memKey (h : HashFns) (a b : T) : Bool := pyHash h b == pyHash h a && pyEq h 
 /-! ## the specification: who is equal to whom, and what the hash may depend on -/
 
 mutual
-  /-- same class, same identifying fields, children equal pointwise (arrow, generic, primitive,
-      constant, function), as sets (sum, restricted variable), or only the body (lambda);
-      a variable is identified by its index alone -/
+  /-- same class and identifying fields (`Lab.key`), children equal pointwise (arrow, generic,
+      primitive, constant, function), as sets (sum, restricted variable), only the body (lambda) or
+      not looked at (a variable is identified by its index alone) -/
   def eqS : T → T → Bool
     | .node la ka, b =>
-      match la, b with
-      | .tprim n, .node (.tprim m) _ => n == m
-      | .tpoly n, .node (.tpoly m) _ => n == m
-      | .tfpoly n, .node (.tfpoly m) kb => n == m && subS ka kb && kb.all (anyS ka)
-      | .tsum, .node .tsum kb => subS ka kb && kb.all (anyS ka)
-      | .tarrow, .node .tarrow kb => zipS ka kb
-      | .tgeneric n _, .node (.tgeneric m _) kb => n == m && zipS ka kb
-      | .unknown, .node .unknown _ => true
-      | .pprim n, .node (.pprim m) kb => n == m && zipS ka kb
-      | .pvar i, .node (.pvar j) _ => i == j
-      | .pconst hv v r, .node (.pconst hv' v' r') kb => zipS ka kb && hv == hv' && valEq v v' && r == r'
-      | .pfun t, .node (.pfun t') kb => t == t' && zipS ka kb
-      | .plam, .node .plam kb => headS ka kb
-      | _, _ => false
+      match b with
+      | .node lb kb =>
+        la.key == lb.key &&
+        (match la.key.mode with
+         | .leaf => true
+         | .zip => zipS ka kb
+         | .set => subS ka kb && kb.all (anyS ka)
+         | .head => headS ka kb)
   def zipS : List T → List T → Bool
     | [], kb => kb.isEmpty
     | k :: ks, kb => (match kb with | [] => false | k' :: kb' => eqS k k' && zipS ks kb')
@@ -280,30 +337,15 @@ mutual
     | k :: _, kb => (match kb with | [] => false | k' :: _ => eqS k k')
 end
 
-/-- first representatives of the `eqS`-classes of a list of (object, hash) pairs -/
-def dedupS : List (T × Int) → List (T × Int) :=
-  fun l => l.foldl (fun s t => if s.any (fun e => eqS e.1 t.1) then s else s ++ [t]) []
-
 mutual
+  /-- the hash as a function of the equivalence class: the constructor's expression over the
+      children's hashes; for a sum, the frozenset hash over one representative per class -/
   def hashS (h : HashFns) : T → Int
     | .node l ks =>
-      match l with
-      | .tprim n => h.str n
-      | .tpoly n => h.str n
-      | .tfpoly n => h.str n
-      | .tsum => h.fset ((dedupS (ks.zip (hashListS h ks))).map (·.2))
-      | .tarrow => h.tuple (hashListS h ks)
-      | .tgeneric n _ => h.tuple [h.str n, h.tuple (hashListS h ks)]
-      | .unknown => h.int 1984
-      | .pprim n => h.tuple (h.str n :: hashListS h ks)
-      | .pvar i => h.tuple [h.str "var", h.int i]
-      | .pconst hv _ r => h.tuple (h.str r :: h.bool hv :: hashListS h ks)
-      | .pfun _ => (match hashListS h ks with
-          | f :: as => h.tuple (as ++ [f])
-          | [] => h.tuple [])
-      | .plam => (match hashListS h ks with
-          | b :: _ => h.int (94135 + b)
-          | [] => h.int 94135)
+      nodeHash h l.key (hashListS h ks)
+        (if l.key = .tsum then
+          h.fset ((mkSet (fun (e t : T × Int) => eqS e.1 t.1) (ks.zip (hashListS h ks))).map (·.2))
+         else 0)
   def hashListS (h : HashFns) : List T → List Int
     | [] => []
     | k :: ks => hashS h k :: hashListS h ks
@@ -329,29 +371,9 @@ def cached : Obj → Int
     field; `==` between children (needed by `frozenset(types)` in `Sum`) is Python's `==` -/
 def construct (h : HashFns) (l : Lab) (kids : List Obj) : Obj :=
   let ks : List (T × Int) := kids.map (fun k => (erase k, cached k))
-  let hash : Int :=
-    ctorHashC h l ks
-  .node (l, hash) kids
-where
-  /-- `ctorHash` reading the children's cached hashes -/
-  ctorHashC (h : HashFns) (l : Lab) (ks : List (T × Int)) : Int :=
-    match l with
-    | .tprim n => h.str n
-    | .tpoly n => h.str n
-    | .tfpoly n => h.str n
-    | .tsum => h.fset ((mkSet (fun a b => pyEq h a.1 b.1) (·.2) ks).map (·.2))
-    | .tarrow => h.tuple (ks.map (·.2))
-    | .tgeneric n _ => h.tuple [h.str n, h.tuple (ks.map (·.2))]
-    | .unknown => h.int 1984
-    | .pprim n => h.tuple (h.str n :: ks.map (·.2))
-    | .pvar i => h.tuple [h.str "var", h.int i]
-    | .pconst hv _ r => h.tuple (h.str r :: h.bool hv :: ks.map (·.2))
-    | .pfun _ => (match ks with
-        | f :: as => h.tuple (as.map (·.2) ++ [f.2])
-        | [] => h.tuple [])
-    | .plam => (match ks with
-        | b :: _ => h.int (94135 + b.2)
-        | [] => h.int 94135)
+  let fs : Int :=
+    if l.key = .tsum then h.fset ((mkSet (keyEq (fun a b => pyEq h a.1 b.1) (·.2)) ks).map (·.2)) else 0
+  .node (l, nodeHash h l.key (ks.map (·.2)) fs) kids
 
 /-- `Constant.__init__(type, value, has_value)`: `_has_value = has_value or value is not None` -/
 def constLab (value : PyVal) (repr : String) (hasValueArg : Bool) : Lab :=
